@@ -24,7 +24,7 @@ var profC15 = &hist.Profile{
 	Name: "C15", MinOps: 12, MaxOps: 45, Topics: 3, Subs: 4,
 	W: map[string]int{
 		hist.OpPublish: 16, hist.OpPull: 18, hist.OpAck: 10, hist.OpModAck: 3, hist.OpNack: 3, hist.OpAdvance: 12,
-		hist.OpSeekTime: 2, hist.OpSnapshot: 2, hist.OpSeekSnap: 1, hist.OpSweep: 3, hist.OpJob: 16, hist.MacroOrphanSnapshot: 2,
+		hist.OpSeekTime: 2, hist.OpSnapshot: 2, hist.OpSeekSnap: 1, hist.OpSweep: 3, hist.OpJob: 16, hist.MacroOrphanSnapshot: 2, hist.MacroPrunePredecessor: 2,
 		hist.OpCreateSub: 5, hist.OpDeleteSub: 3, hist.OpCreateTopic: 2, hist.OpDeleteTopic: 3, hist.OpGetSub: 2, hist.OpGetTopic: 1,
 	},
 	Ordered: 60, Keys: []string{"", "K1", "K1", "K2"}, Filters: hist.DefaultFilters,
